@@ -300,7 +300,8 @@ Definition l0_op (d : wdecl) (o : op) : bool :=
   match o with
   | OCreate _ _ | OCreateW _ _ => true
   | ODestroy (LArch b) KEnt TAny (RIssued _) | OProbe (LArch b) KEnt TAny (RIssued _) => b <? length (wd_archs d)
-  | OProbe LWorld KEnt TAny (RIssued _) | ODestroy LWorld KEnt TAny (RIssued _) => true
+  | OProbe LWorld KEnt TAny (RIssued _) | ODestroy LWorld KEnt TAny (RIssued _) | OToDirect LWorld KEnt TAny (RIssued _) => true
+  | OToDirect (LArch b) KEnt TAny (RIssued _) => b <? length (wd_archs d)
   | _ => false
   end.
 
@@ -785,6 +786,113 @@ Proof.
 Qed.
 
 
+(* ---------------------------------------------------------------- to_direct *)
+
+Lemma step_todirect_unfold cfg d qs st w l i e b bd s : cur_world st = Some w -> issued st !! i = Some e -> snd e <> 0%N ->
+  wd_archs d !! b = Some bd -> w !! b = Some s ->
+  match l with LWorld => find_arch (wd_archs d) (key_arch_id (fst e)) = Some b | LArch b' => b' = b end ->
+  step cfg d qs st (OToDirect l KEnt TAny (RIssued i)) =
+    if decide (da_id bd = key_arch_id (fst e)) then
+      match to_direct cfg KEnt s e with
+      | ROk (Some dh) => ret (add_directs st [dh]) (1%N :: o_handle dh)
+      | ROk None => ret st [0%N]
+      | RPanic p => ret st [2%N; pcode p]
+      | RUB => None
+      end
+    else Some (st, [0%N]).
+Proof.
+  intros Hcur Hi Hv Had Hs Hl. cbn [step]. rewrite Hcur. cbn [get_href]. rewrite Hi. unfold make_key.
+  assert (raw_ok (snd e) = true) as -> by (unfold raw_ok, nonzero_new; destruct (N.eqb_spec (snd e) 0); done).
+  cbn [negb]. destruct l as [|b'].
+  - destruct (find_arch_some _ _ _ Hl) as (ad' & Had' & Hid' & _). assert (ad' = bd) as -> by congruence. rewrite decide_True by done.
+    cbn [dispatch_world]. rewrite Hl, Had, Hs. done.
+  - subst b'. cbn [dispatch_arch]. rewrite Had. change arch_dispatch_checks_id with true. cbn [id_ok]. unfold conv_ok.
+    case_decide as Hid.
+    + rewrite <- Hid, N.eqb_refl. cbn [fmap option_fmap option_map]. rewrite Nat.eqb_refl || idtac. rewrite Had, Hs. done.
+    + destruct (N.eqb_spec (key_arch_id (fst e)) (da_id bd)) as [E|_]; [by rewrite E in Hid|]. done.
+Qed.
+
+Lemma rel_add_directs d st sst ds dd infos : Rel d st sst -> RInv d (add_directs st ds) -> Rel d (add_directs st ds) (add_direct sst dd infos).
+Proof.
+  intros HR Hinv. destruct HR as [R1 R2 R3 R4 R5 R6]. constructor; try done.
+Qed.
+
+Lemma rel_step_todirect cfg d qs st sst l i : wf_decl d -> NoDup (da_id <$> wd_archs d) -> Rel d st sst ->
+  match l with LWorld => True | LArch b => b < length (wd_archs d) end ->
+  exists st' obs sst', step cfg d qs st (OToDirect l KEnt TAny (RIssued i)) = Some (st', obs) /\ obs <> [254%N] /\
+    spec_step cfg d qs sst (OToDirect l KEnt TAny (RIssued i)) obs = inr sst' /\ Rel d st' sst'.
+Proof.
+  intros Hwf Hnd HR Hl0. destruct (rel_cur d st sst HR) as (w & sw & Hw & Hsw & Hcw & Hcsw & HWI & Harch).
+  destruct (r_cur _ _ _ HR) as [Hc0 Hsc0]. destruct (r_iss _ _ _ HR) as [Hfi Hwi].
+  pose proof (step_inv cfg d qs st (OToDirect l KEnt TAny (RIssued i)) Hwf I (r_inv _ _ _ HR)) as Hinv.
+  destruct (issued st !! i) as [e|] eqn:Hi.
+  2: { exists st, [8%N], sst. split_and!; [|done|cbn [spec_step]; rewrite Hcsw|done].
+       - cbn [step]. rewrite Hcw. cbn [get_href]. by rewrite Hi.
+       - assert (Hl : (fst <$> s_issued sst) !! i = None) by (by rewrite Hfi). rewrite list_lookup_fmap in Hl.
+         destruct (s_issued sst !! i); [done|]. done. }
+  destruct (rel_issued d st sst w sw i e Hnd HR Hw Hsw Hi) as (Hv & Hk & (a0 & Hsi) & a & ad & s & x & Had & Hid & Hfa & Hs & Hx & HA & HS & Hc).
+  (* the archetype that decides: a for the world level, b for the archetype level *)
+  assert (Hsel : exists b bd sb xb, wd_archs d !! b = Some bd /\ w !! b = Some sb /\ sw !! b = Some xb /\ ARel sb xb (issued st) /\ SInv bd sb /\
+            match l with LWorld => find_arch (wd_archs d) (key_arch_id (fst e)) = Some b | LArch b' => b' = b end /\
+            (da_id bd = key_arch_id (fst e) -> b = a)).
+  { destruct l as [|b].
+    - exists a, ad, s, x. done.
+    - destruct (lookup_lt_is_Some_2 _ _ Hl0) as [bd Hbd]. destruct (Harch b bd Hbd) as (sb & xb & Hsb & Hxb & HAb & HSb).
+      exists b, bd, sb, xb. split_and!; try done. intros E.
+      assert (Hfb : find_arch (wd_archs d) (key_arch_id (fst e)) = Some b) by (by apply (find_arch_unique _ _ b bd)). congruence. }
+  destruct Hsel as (b & bd & sb & xb & Hbd & Hsb & Hxb & HAb & HSb & Hlb & Hsame).
+  rewrite (step_todirect_unfold cfg d qs st w l i e b bd sb Hcw Hi Hv Hbd Hsb Hlb) in Hinv |- *.
+  assert (Hih : (0 <? count_h e (default [] (s_wissued sst !! s_cur sst))) = true).
+  { rewrite Hsc0, Hwi. change (default [] ([issued st] !! 0)) with (issued st). apply Nat.ltb_lt. unfold count_h.
+    assert (Hin : e ∈ filter (fun y => heqb y e = true) (issued st)) by (apply elem_of_list_filter; split; [by apply heqb_eq|by eapply elem_of_list_lookup_2]).
+    destruct (filter _ (issued st)); [by apply elem_of_nil in Hin|cbn; lia]. }
+  (* the oracle on the two observations the model can print *)
+  assert (Hexp : forall obs, obs = [0%N] \/ (exists dk dv, obs = [1%N; dk; dv]) ->
+     spec_step cfg d qs sst (OToDirect l KEnt TAny (RIssued i)) obs =
+     if decide (da_id bd = key_arch_id (fst e)) then
+       match obs with
+       | [1%N; dk; dv] => match find_sent e (sa_live xb) with
+                          | None => inl (1%N, 1%N)
+                          | Some _ => if negb (N.eqb (dkey_arch_id dk) (da_id bd)) then inl (14%N, 15%N)
+                                      else inr (add_direct sst (dk, dv) (mk_dinfo sst sw b (Some e)))
+                          end
+       | _ => match find_sent e (sa_live xb) with Some _ => inl (1%N, 2%N) | None => inr sst end
+       end
+     else if lNeqb obs [0%N] then inr sst else inl (1%N, 21%N)).
+  { intros obs Hobs. cbn [spec_step]. rewrite Hcsw, Hsi. cbn [fmap option_fmap option_map fst].
+    rewrite Hih. unfold expect_key. cbn [fst snd]. destruct (N.eqb_spec (snd e) 0) as [|_]; [done|].
+    assert (Hcore : match w0 ← Some sw; w0 !! b with Some _ => True | None => True end) by (by destruct (Some sw ≫= _)).
+    clear Hcore.
+    destruct l as [|b'].
+    - rewrite Hlb. rewrite Hxb. destruct (find_arch_some _ _ _ Hlb) as (ad' & Had' & Hid' & _). assert (ad' = bd) as -> by congruence.
+      rewrite decide_True by done. rewrite (a_sync _ _ _ HAb). unfold aid_of. rewrite Hbd.
+      destruct Hobs as [->|(dk & dv & ->)]; destruct (find_sent e (sa_live xb)); cbn; try done.
+    - subst b'. rewrite Hbd. case_decide as Hd.
+      + assert ((da_id bd =? key_arch_id (fst e))%N = true) as -> by (by apply N.eqb_eq).
+        rewrite Hxb. rewrite (a_sync _ _ _ HAb). unfold aid_of. rewrite Hbd.
+        destruct Hobs as [->|(dk & dv & ->)]; destruct (find_sent e (sa_live xb)); cbn; try done.
+      + destruct (N.eqb_spec (da_id bd) (key_arch_id (fst e))) as [|_]; [done|]. done. }
+  case_decide as Hide.
+  2: { exists st, [0%N], sst. split_and!; [done|done| |done]. by rewrite Hexp by (by left). }
+  assert (b = a) as -> by auto. assert (bd = ad) as -> by congruence.
+  assert (Some sb = Some s) as [= ->] by (etrans; [symmetry; exact Hsb|exact Hs]).
+  assert (Some xb = Some x) as [= ->] by (etrans; [symmetry; exact Hxb|exact Hx]).
+  destruct HS as (HI & Haid & Hcols).
+  destruct (decide (e ∈ ents s)) as [Hin|Hnin].
+  - apply elem_of_list_lookup in Hin as [dd Hdd].
+    assert (Hd : dd < len s) by (rewrite <- (i_lents s HI); by eapply lookup_lt_Some).
+    rewrite (to_direct_stored cfg s HI dd e Hdd) in Hinv |- *. cbn [ret] in Hinv.
+    destruct (abs_at_some s dd HI Hd) as (e' & row & Ha & He' & _). rewrite Hdd in He'. injection He' as <-.
+    pose proof (a_b1 _ _ _ HA e row ltac:(by exists dd)) as Hfind.
+    exists (add_directs st [direct_of s dd]), (1%N :: o_handle (direct_of s dd)), (add_direct sst (direct_of s dd) (mk_dinfo sst sw a (Some e))).
+    split_and!; [done|done| |by apply rel_add_directs].
+    rewrite Hexp by (right; by eexists _, _). cbn [o_handle]. rewrite Hfind.
+    rewrite (direct_of_id s dd HI Hd), Haid, N.eqb_refl. cbn [negb]. by destruct (direct_of s dd).
+  - unfold to_direct in Hinv |- *. rewrite (resolve_entity_unstored cfg s HI e Hk ltac:(congruence) Hc Hnin) in Hinv |- *.
+    exists st, [0%N], sst. split_and!; [done|done| |done].
+    rewrite Hexp by (by left). by rewrite (a_b2 _ _ _ HA e Hnin).
+Qed.
+
 (* ---------------------------------------------------------------- the initial world and whole histories *)
 
 Lemma new_world_fresh archs : forall caps w a s c, new_world archs caps = Ok w tt -> w !! a = Some s -> caps !! a = Some c ->
@@ -830,7 +938,7 @@ Lemma rel_step cfg d qs st sst o : wrapping cfg = false -> wf_decl d -> NoDup (d
   exists st' obs sst', step cfg d qs st o = Some (st', obs) /\ obs <> [254%N] /\
     spec_step cfg d qs sst o obs = inr sst' /\ Rel d st' sst'.
 Proof.
-  intros Hwr Hwf Hnd HR Hl0. destruct o as [| | | |a v|a v|l k t r|l k t r| | | | | | | | | | | | | | |]; try done.
+  intros Hwr Hwf Hnd HR Hl0. destruct o as [| | | |a v|a v|l k t r|l k t r|l k t r| | | | | | | | | | | | | |]; try done.
   - by apply rel_step_create.
   - by apply rel_step_createw.
   - destruct k; [|by destruct l]. destruct t; try (by destruct l). destruct r as [i| |]; try (by destruct l).
@@ -838,6 +946,8 @@ Proof.
   - destruct k; [|by destruct l]. destruct t; try (by destruct l). destruct r as [i| |]; try (by destruct l).
     destruct (rel_step_probe cfg d qs st sst l i Hnd HR Hl0) as (obs & Hst & Hsp & Hne).
     exists st, obs, sst. done.
+  - destruct k; [|by destruct l]. destruct t; try (by destruct l). destruct r as [i| |]; try (by destruct l).
+    apply rel_step_todirect; try done. destruct l as [|b]; [done|]. cbn [l0_op] in Hl0. by apply Nat.ltb_lt.
 Qed.
 
 Lemma rel_run cfg d qs ops : wrapping cfg = false -> wf_decl d -> NoDup (da_id <$> wd_archs d) ->
